@@ -30,6 +30,10 @@ def closure(facts, kinds, taker):
                 for (s2, f2, o2) in F:
                     if f2 == f and s2 == o:
                         new.add((s, f, o2))
+            if f == "under":                          # the same transitive property declared on another class
+                for (s2, f2, o2) in F:
+                    if f2 == "sub_org_of" and s2 == o:
+                        new.add((s, f, o2))
             if f == "part_of":                        # transitive + inverse has_part
                 new.add((o, "has_part", s))
                 for (s2, f2, o2) in F:
@@ -57,6 +61,8 @@ def observe_fields(om, named):
             fl = ("members", "sub_org_of", "part_of", "has_part", "wholly_owned_by")
         elif isinstance(o, om.Person):
             fl = ("works_for", "member_of")
+        elif isinstance(o, getattr(om, "Unit", ())):
+            fl = ("under",)
         elif isinstance(o, getattr(om, "VOrg", ())):
             fl = ("members",)
         elif isinstance(o, getattr(om, "VPerson", ())):
